@@ -40,7 +40,7 @@ def _norm_nodes(nodes):
         if "attrs" in n:
             attrs = []
             for key, rec in n["attrs"]:
-                if key.startswith("v:"):
+                if key.startswith("v:") and key.rsplit(":", 1)[-1].startswith(("dyn", "static")):
                     key = key.rsplit(":", 1)[0]
                     rec = {k: v for k, v in rec.items() if k != "isDynamic"}
                 attrs.append([key, rec])
